@@ -15,7 +15,7 @@ PORTS = [443, 44330, 8443, 4433, 9443, 1234, 50000, 1, 65535, 8080]
 
 def build(tier, seed):
     thorough = tier == "thorough"
-    cases = [{"id": f"cfg-{i}", "i": i} for i in range(5000 if thorough else 300)]
+    cases = [{"id": f"cfg-{i}", "i": i} for i in range(30000 if thorough else 300)]
 
     def evalfn(case):
         return eval_case(case, random.Random(engine.subseed("C10", seed, case["id"])))
